@@ -310,6 +310,10 @@ def json_get(dic, item, typ):
     ret = dic.get(item)
     if not isinstance(ret, typ):
         json_fatal(item)
+    if typ is str:
+        # JSON can express lone surrogates ("\\ud800"), which cannot be
+        # written to any report
+        ret = ret.encode('utf-8', 'replace').decode('utf-8')
     return ret
 
 #   translation between CLI option names and HTML request fields,
